@@ -28,6 +28,15 @@ fn main() {
         std::process::exit(2);
     }
     let property = args[1].clone();
+    if property == "C07-miri-seeds" {
+        api::install_panic_hook();
+        std::process::exit(if mon::c07::write_miri_seeds(&args[2]) { 0 } else { 1 });
+    }
+    if property == "C07-miri" {
+        api::install_panic_hook();
+        mon::c07::miri_main(&args);
+        return;
+    }
     if property == "C09-vclock" {
         // child of the virtual-clock leg (runs under LD_PRELOAD=shim/libvclock.so)
         api::install_panic_hook();
